@@ -225,7 +225,7 @@ structure Inv (s : State) : Prop where
       (s.conns c).sockClosed = true ∨ (s.conns c).regClosing = true
   sweep : ∀ k, s.closes k = .closedCh → ∀ c, c ∈ s.registered → c ∈ s.sweepLeft ∨ (s.conns c).sockClosed = true
 
-theorem inv_initCfg (nl sg : Bool) : Inv (initCfg nl sg) := by
+theorem inv_initCfg (nl : Bool) (sg : List Sig) : Inv (initCfg nl sg) := by
   constructor <;> simp [initCfg, cnt, holdsLock, shutHolds, closeHolds, shutClosed, closeClosed, inMap, counted,
     Local.default, closeSwept]
 
